@@ -181,6 +181,24 @@ class Ctx:
             hi = self._val(self.solver.model().eval(t, model_completion=True))
 
 
+def run_path(fn, decisions, timeout_ms=10000, index_cap=64, setup=None):
+    """re-execute exactly the path described by a complete decision record"""
+    ctx = Ctx(timeout_ms, index_cap)
+    ctx.decisions = [dict(d) for d in decisions]
+    Ctx.cur = ctx
+    try:
+        if setup is not None:
+            setup(ctx)
+        res = ('ok', fn(ctx))
+    except Abort as a:
+        res = ('abort', a)
+    except Exception as e:
+        res = ('exc', e)
+    ctx.stats.paths += 1
+    GLOBAL.paths += 1
+    return ctx, res
+
+
 def explore(fn, timeout_ms=10000, maxpaths=100000, index_cap=64, setup=None):
     """run fn(ctx) once per feasible path; yields (ctx, (kind, value))
     kind in 'ok' (return value), 'exc' (Exception instance), 'abort' (Abort instance)"""
@@ -500,7 +518,11 @@ class SNum(Sym):
     def imag(self): return 0
 
     def __format__(self, spec): return '<sym>'
-    def __str__(self): return '<sym:%s>' % (self.c if self.c is not None else self.t)
+    def __str__(self):
+        if self.c is not None:
+            return '<%s>' % self.c
+        t = str(self.t)
+        return '<sym:%s>' % (t if len(t) < 40 else t[:37].replace('\n', ' ') + '...')
     __repr__ = __str__
 
 
